@@ -7,6 +7,7 @@ import (
 	"fmt"
 	"math/rand"
 	"runtime"
+	"strings"
 	"sync"
 	"sync/atomic"
 	"testing"
@@ -73,6 +74,7 @@ type c01Cfg struct {
 	dead    int  // further callers whose context has already ended (the transport tests the context of a Write)
 	doomed  int  // calls in flight on an EARLIER connection of the same Server whose transport then fails
 	faulted int  // callers whose request Write delivers the envelope and then reports an error
+	stream  bool // thread 0 holds an open server stream on the same connection (opened first)
 }
 
 func (c c01Cfg) tags() []string {
@@ -102,6 +104,10 @@ func runC01Lock(t *testing.T, cfg c01Cfg, progs [][]syCop, choose func(step int,
 		r := newSyRigOpt(cfg.topo, cfg.byRef, true, cfg.dead > 0)
 		if cfg.doomed > 0 {
 			r.addDoomedConn(cfg.byRef)
+		}
+		if cfg.stream {
+			r.hideStreams = true
+			r.hprogs[0] = syHProg{J: 0, N: 2, Seed: 5}
 		}
 		for _, p := range progs {
 			r.addThread(p)
@@ -521,6 +527,42 @@ func TestC01(t *testing.T) {
 			return 0
 		})
 		rec := recC01("c01-doomed-connection", dc, map[string]any{"doomed": dc.doomed, "schedule": sySchedString(steps)}, steps, complete, "mode:two-connections")
+		sp.small(&rec)
+	}
+
+	// ---- A'''. a stream and unary calls on ONE connection: thread 0 opens a server stream first (it stays open), the others
+	// invoke; the requests are delivered, the stream's handler pushes its messages, then the unary handlers return: the
+	// stream's messages reach the client BEFORE the unary replies. Each caller must get the reply to its own request.
+	for si, sc := range []c01Cfg{{topo: 0, k: 1, stream: true}, {topo: 0, byRef: true, k: 2, stream: true}, {topo: 2, k: 1, stream: true}, {topo: 1, byRef: true, k: 1, stream: true}} {
+		rng := newRand(int64(79000 + si))
+		progs := [][]syCop{{{Op: "open", Slot: 0, Kind: 1, M: 0}, {Op: "recv", Slot: 0}, {Op: "recv", Slot: 0}, {Op: "recv*", Slot: 0}}}
+		for i := 0; i < sc.k; i++ {
+			progs = append(progs, []syCop{{Op: "invoke", Pay: syBytes(rng, syPickSize(rng)), M: i}, {Op: "invoke", Pay: syBytes(rng, 17), M: i + 1}})
+		}
+		prio := "UCGHSR"
+		opened := false
+		steps, complete, _ := runC01Lock(t, sc, progs, func(step int, en []syAct) int {
+			if !opened { // the stream is opened (and its opening envelope delivered) before any unary call starts
+				for i, a := range en {
+					if a.K == 'U' && a.N == 0 {
+						opened = true
+						return i
+					}
+				}
+			}
+			best, bi := 99, 0
+			for i, a := range en {
+				p := strings.IndexByte(prio, a.K)
+				if a.K == 'U' && a.N == 0 {
+					p = 50 // the stream's own receives come last
+				}
+				if p >= 0 && p < best {
+					best, bi = p, i
+				}
+			}
+			return bi
+		})
+		rec := recC01("c01-with-stream", sc, map[string]any{"schedule": sySchedString(steps)}, steps, complete, "mode:stream-and-unary")
 		sp.small(&rec)
 	}
 
